@@ -32,6 +32,9 @@ var (
 	flagWorkers = flag.Int("verif.workers", 1, "number of workers")
 	flagChecks  = flag.Int("verif.checks", 25, "rapid checks per batch")
 	flagMaxBat  = flag.Int("verif.maxbatches", 0, "stop after this many batches (0 = budget only)")
+	flagFirst   = flag.Int("verif.firstbatch", 0, "index of the first batch")
+	flagQuota   = flag.Int("verif.quota", 0, "batches that are run whatever the wall clock says (within -verif.ceiling); their statistics are written to stats_quota.json and the batches after them are counted apart")
+	flagCeiling = flag.Duration("verif.ceiling", 0, "wall-clock ceiling of the quota part (0 = the budget)")
 	flagDigests = flag.String("verif.digests", "", "write one digest line per simulated run to this file (determinism self-test)")
 )
 
@@ -288,7 +291,7 @@ func Main(t *testing.T, h Hooks) {
 		st.Violations = append(st.Violations, ViolationRecord{Class: sc.Expect.Class, Detail: sc.Expect.Detail, File: path})
 	}
 
-	if p.Prefix != nil && *flagWorker == 0 {
+	if p.Prefix != nil && *flagWorker == 0 && *flagFirst == 0 {
 		sc, v := p.Prefix(c)
 		if v != nil {
 			c.Fail(nil, sc, v.Class, v.Detail)
@@ -300,8 +303,36 @@ func Main(t *testing.T, h Hooks) {
 		}
 	}
 
+	// The first -verif.quota batches are the quota part: they are run whatever
+	// the wall clock says (up to the ceiling), so that what they cover is a
+	// function of the seed alone. At that boundary the statistics are written
+	// out (stats_quota.json) and counting starts afresh: the batches that follow,
+	// as many as the time budget allows, are the continuation.
 	deadline := start.Add(*flagBudget)
-	for batch := 0; time.Now().Before(deadline) && (*flagMaxBat == 0 || batch < *flagMaxBat); batch++ {
+	ceiling := deadline
+	if *flagCeiling > 0 {
+		ceiling = start.Add(*flagCeiling)
+	}
+	quotaEnd := *flagFirst + *flagQuota
+	for batch := *flagFirst; *flagMaxBat == 0 || batch < *flagFirst+*flagMaxBat; batch++ {
+		if batch < quotaEnd {
+			if !time.Now().Before(ceiling) {
+				break
+			}
+		} else {
+			if *flagQuota > 0 && batch == quotaEnd {
+				st.WallS = time.Since(start).Seconds()
+				writeStatsAs(out, "stats_quota.json", st)
+				nst := newStats()
+				nst.Property, nst.Tier, nst.Seed, nst.Worker = st.Property, st.Tier, st.Seed, st.Worker
+				nst.Rule, nst.Components = st.Rule, st.Components
+				st = nst
+				c.Stats = st
+			}
+			if !time.Now().Before(deadline) {
+				break
+			}
+		}
 		bs := splitmix64(*flagSeed ^ splitmix64(uint64(batch)+1))
 		if bs == 0 {
 			bs = 1
@@ -327,13 +358,23 @@ func Main(t *testing.T, h Hooks) {
 	}
 }
 
-func writeStats(out string, st *Stats) {
-	if n := yieldpt.Passed.Load(); n > 0 {
-		st.Extra["yield_points_passed_inside_git-sizer_with_a_schedule_installed"] = float64(n)
-		st.Extra["yields_injected_at_those_points"] = float64(yieldpt.Yielded.Load())
+// yield counters are process-wide: each statistics file reports what was
+// added since the one before it
+var yieldBase [2]int64
+
+func writeStats(out string, st *Stats) { writeStatsAs(out, "stats.json", st) }
+
+func writeStatsAs(out, name string, st *Stats) {
+	if n := int64(yieldpt.Passed.Load()); n > 0 {
+		y := int64(yieldpt.Yielded.Load())
+		st.Extra["yield_points_passed_inside_git-sizer_with_a_schedule_installed"] = float64(n - yieldBase[0])
+		st.Extra["yields_injected_at_those_points"] = float64(y - yieldBase[1])
+		if name != "stats.json" {
+			yieldBase = [2]int64{n, y}
+		}
 	}
 	b, _ := json.MarshalIndent(st, "", " ")
-	os.WriteFile(filepath.Join(out, "stats.json"), b, 0o644)
+	os.WriteFile(filepath.Join(out, name), b, 0o644)
 }
 
 func sortedKeys(m map[string]bool) []string {
